@@ -35,8 +35,6 @@ import (
 	"verifh/vh"
 )
 
-const sigPadded = "org-delete-leaves-index-entry-of-padded-name"
-
 // ---- case format ----
 
 type jop struct {
@@ -168,6 +166,7 @@ type world struct {
 	userBkts []uint64    // live buckets of user type
 	live     [3][]uint64 // canonical ids of the live orgs / buckets / users (from the last dump)
 	bad      []string
+	cleanup  func()
 }
 
 func newWorld(useBolt bool) *world {
@@ -651,9 +650,9 @@ func obsTerm(o jobs, same bool) string {
 		nums(o.Pwds), vh.List(urms), vh.List(uix), vh.List(lorg), vh.List(lbkt), vh.List(lusr))
 }
 
-// shape signature, decided from the operations only: the history deletes an organization
-// and uses a non-empty organization name with surrounding blanks.
-func sigOf(ops []jop) string {
+// paddedDelete: the history deletes an organization and uses a blank-padded organization
+// name (the shape of the former finding; only counted for the input distribution).
+func paddedDelete(ops []jop) bool {
 	padded, del := false, false
 	for _, o := range ops {
 		if o.Op == "delete_org" {
@@ -663,10 +662,7 @@ func sigOf(ops []jop) string {
 			padded = true
 		}
 	}
-	if padded && del {
-		return sigPadded
-	}
-	return ""
+	return padded && del
 }
 
 // run executes a history; gen (if non-nil) produces the next operation from the current
@@ -717,7 +713,7 @@ func run(w *vh.W, c *jcase, length int, gen func(*world) jop) {
 			nontrivial = true
 		}
 	}
-	sig := sigOf(c.Ops)
+	sig := "" // no tolerated finding: the padded-name defect of Store.DeleteOrg is fixed (/repo 80e129d9b5)
 	idx := w.Add(fmt.Sprintf("(Build_case %s %s)", vh.List(opsT), vh.List(obsT)), c, nontrivial, sig)
 	if panicked != "" {
 		w.Fail(idx, "panic in the tenant service: "+panicked, "")
@@ -726,8 +722,12 @@ func run(w *vh.W, c *jcase, length int, gen func(*world) jop) {
 		w.Fail(idx, "malformed store content: "+strings.Join(wd.bad, "; "), "")
 	}
 	w.Count("len", fmt.Sprint(len(c.Ops)))
-	w.Count("store", "inmem"+c.Store)
-	w.Count("sig", sig)
+	if c.Store == "" {
+		w.Count("store", "inmem")
+	} else {
+		w.Count("store", c.Store)
+	}
+	w.Count("padded_name_and_org_delete", fmt.Sprint(paddedDelete(c.Ops)))
 }
 
 func up(v uint64) *uint64       { return &v }
@@ -743,7 +743,7 @@ func main() {
 		return
 	}
 	hand := [][]jop{
-		// the padded-name finding: the index entry "oa" survives the delete, "oa" can never be created again
+		// blank-padded names (regression for the fixed finding: before /repo 80e129d9b5 the index entry "oa" survived the delete)
 		{{Op: "create_org", OName: on(1, 1)}, {Op: "delete_org", ID: 1}, {Op: "create_org", OName: on(1, 0)}},
 		{{Op: "create_org", OName: on(1, 2)}, {Op: "update_org", ID: 1, OName: on(2, 0)}, {Op: "delete_org", ID: 1}, {Op: "create_org", OName: on(1, 0)}, {Op: "create_org", OName: on(2, 0)}},
 		{{Op: "create_org", OName: on(1, 0)}, {Op: "update_org", ID: 1, OName: on(2, 1)}, {Op: "delete_org", ID: 1}, {Op: "create_org", OName: on(2, 0)}},
